@@ -132,3 +132,110 @@ func VHarness_C13_RevokedChannels() {
 		}
 	}
 }
+
+// vhNondetPeriod: an optional closed period [s,e) strictly before `before`.
+func vhNondetPeriod(before uint64) (p GrantHistorySequencePair, ok bool) {
+	if !vNondetBool() {
+		return p, false
+	}
+	p = GrantHistorySequencePair{StartSeq: vNondetU64(), EndSeq: vNondetU64()}
+	vAssume(p.StartSeq >= 1 && p.StartSeq < p.EndSeq && p.EndSeq <= before)
+	return p, true
+}
+
+func vhIn(p GrantHistorySequencePair, ok bool, x uint64) bool {
+	return ok && p.StartSeq <= x && x < p.EndSeq
+}
+
+// VHarness_C13_GrantedPeriods: the periods reported for a channel cover every instant at which the user really had
+// the channel: directly (an earlier, ended grant or the current one) or through role r1 while holding it (an earlier,
+// ended holding or the current one) and while the role had the channel (an earlier, ended grant or the current one).
+// (Reporting more than that only causes superfluous removal messages; reporting less leaves a stale document.)
+func VHarness_C13_GrantedPeriods() {
+	s := vhNewStore(false, false)
+	a := vhNewAuth(s)
+	u := &userImpl{auth: a}
+	u.Name_ = "u1"
+	// direct access of the user to channel A
+	userCur, userCurOK := vNondetU64(), vNondetBool()
+	vAssume(userCur >= 1 && userCur < 1<<62)
+	userPast, userPastOK := vhNondetPeriod(userCur)
+	u.Channels_ = ch.TimedSet{"other": ch.NewVbSimpleSequence(1)}
+	if userCurOK {
+		u.Channels_["A"] = ch.NewVbSimpleSequence(userCur)
+	}
+	if userPastOK {
+		u.ChannelHistory_ = TimedSetHistory{"A": GrantHistory{UpdatedAt: 1, Entries: []GrantHistorySequencePair{userPast}}}
+	}
+	// the user's holding of role r1
+	holdCur, holdCurOK := vNondetU64(), vNondetBool()
+	vAssume(holdCur >= 1 && holdCur < 1<<62)
+	holdPast, holdPastOK := vhNondetPeriod(holdCur)
+	u.RolesSince_ = ch.TimedSet{}
+	if holdCurOK {
+		u.RolesSince_["r1"] = ch.NewVbSimpleSequence(holdCur)
+	}
+	if holdPastOK {
+		u.RoleHistory_ = TimedSetHistory{"r1": GrantHistory{UpdatedAt: 1, Entries: []GrantHistorySequencePair{holdPast}}}
+	}
+	// role r1's access to channel A
+	roleCur, roleCurOK := vNondetU64(), vNondetBool()
+	vAssume(roleCur >= 1 && roleCur < 1<<62)
+	roleDeleted, roleDelEnd := false, uint64(0)
+	rolePast, rolePastOK := vhNondetPeriod(roleCur)
+	r := &roleImpl{Name_: "r1", docID: a.DocIDForRole("r1"), Sequence_: 1, Channels_: ch.TimedSet{}}
+	if roleCurOK {
+		r.Channels_["A"] = ch.NewVbSimpleSequence(roleCur)
+	}
+	if rolePastOK {
+		r.ChannelHistory_ = TimedSetHistory{"A": GrantHistory{UpdatedAt: 1, Entries: []GrantHistorySequencePair{rolePast}}}
+	}
+	// the role may have been deleted (not purged) at some sequence: DeleteRole invalidates its channels at that sequence
+	// and moves what it had into its channel history; users that list the role keep listing it until they are rebuilt
+	if vNondetBool() {
+		vCover("role-deleted")
+		delSeq := vNondetU64()
+		vAssume(delSeq < 1<<62)
+		r.Deleted = true
+		r.ChannelInvalSeq = delSeq
+		if roleCurOK {
+			vAssume(delSeq > roleCur)
+			var entries []GrantHistorySequencePair
+			if rolePastOK {
+				entries = append(entries, rolePast)
+			}
+			entries = append(entries, GrantHistorySequencePair{StartSeq: roleCur, EndSeq: delSeq})
+			r.ChannelHistory_ = TimedSetHistory{"A": GrantHistory{UpdatedAt: 1, Entries: entries}}
+			roleDelEnd = delSeq
+		} else {
+			vAssume(!rolePastOK || delSeq >= rolePast.EndSeq)
+		}
+		roleDeleted = true
+	}
+	s.docs[r.docID] = &vhDoc{v: r, cas: s.nextCas()}
+
+	vMapOrder(1)
+	pairs, err := u.CollectionChannelGrantedPeriods(base.DefaultScope, base.DefaultCollection, "A")
+	vMapOrder(0)
+	vAssert(err == nil, "CollectionChannelGrantedPeriods succeeds")
+
+	x := vNondetU64() // witness instant
+	vAssume(x >= 1 && x < 1<<62)
+	direct := vhIn(userPast, userPastOK, x) || (userCurOK && x >= userCur)
+	holds := vhIn(holdPast, holdPastOK, x) || (holdCurOK && x >= holdCur)
+	roleHas := vhIn(rolePast, rolePastOK, x) || (roleCurOK && x >= roleCur && (!roleDeleted || x < roleDelEnd))
+	covered := false
+	for _, p := range pairs {
+		if p.StartSeq <= x && x < p.EndSeq {
+			covered = true
+		}
+	}
+	if direct {
+		vCover("direct-access")
+		vAssert(covered, "an instant of direct access to the channel is inside a reported period")
+	}
+	if holds && roleHas {
+		vCover("access-through-role")
+		vAssert(covered, "an instant of access to the channel through a held role is inside a reported period")
+	}
+}
